@@ -644,10 +644,14 @@ class Runner:
         import jax
         from jax import numpy as jnp
 
+        import time
+
         ctx = self.ctx
         name = _stack_name(spec)
         self.n += 1
         seed = int(ctx.rng.integers(0, 2**30))
+        tm = ctx.notes.setdefault("seconds", {"build+static": 0.0, "sample+rollout(first call compiles)": 0.0, "judge": 0.0, "reruns": 0.0})
+        t0 = time.time()
         try:
             env = build_env(spec)
         except Exception as e:  # noqa: BLE001
@@ -658,6 +662,8 @@ class Runner:
             if static:
                 static_checks(ctx, env, spec)
                 documented_space_check(ctx, _layers(env)[-1], spec)
+            tm["build+static"] += time.time() - t0
+            t0 = time.time()
             sampled = np.asarray(_sample_actions(env, seed, K, T))
             sampled = sampled.reshape((K, T) + sampled.shape[1:])
             acts, drv = make_actions(ctx, env, sampled, K, T)
@@ -667,9 +673,13 @@ class Runner:
         except Exception as e:  # noqa: BLE001
             ctx.violation(f"{spec['base'].lower()}-rollout-raises", {"stack": name, "spec": spec, "error": repr(e)[-600:]})
             return None
+        tm["sample+rollout(first call compiles)"] += time.time() - t0
+        t0 = time.time()
         ctx.monitor("rollouts_run")
         ctx.monitor("env_steps", K * T)
         judge_batch(ctx, env, spec, out, acts, sampled, drv, K, T, self.succ)
+        tm["judge"] += time.time() - t0
+        t0 = time.time()
 
         # ---- no Python-side state: same call again after other work; fresh env object; fresh interpreter
         import random as _random
@@ -690,6 +700,7 @@ class Runner:
             d = _same(out, again2)
             if d:
                 ctx.violation(f"{spec['base'].lower()}-rollout-differs-on-rebuilt-env-object", {"stack": name, "spec": spec, **_first_diff(out, again2, d)} if d in out else {"stack": name, "what": d})
+        tm["reruns"] += time.time() - t0
         if child:
             self._spawn_child(spec, seed, K, T, acts, out, sampled)
         return out
